@@ -56,6 +56,9 @@ SITES = {
     "textmode": 'x${v}y',
 }
 KINDS = ["str", "strsub", "bytes", "obj", "msg", "intsub", "floatsub", "trkey"]
+# plain-str message ids whose catalogue translation is the hostile text: only where the value itself is a message id
+CATALOG = {}
+CATKEY_SITES = ("content_translate", "replace_translate")
 
 
 class StrSub(str):
@@ -134,6 +137,10 @@ def make_value(kind, s):
         return Html(s)
     if kind == "trkey":
         return TrKey(s)
+    if kind == "catkey":
+        key = "cat" + "".join("%02x" % ord(ch) for ch in s)
+        CATALOG[key] = s
+        return key
     if kind == "intsub":
         return IntSub(s)
     if kind == "floatsub":
@@ -144,6 +151,8 @@ def make_value(kind, s):
 def translate(msgid, domain=None, mapping=None, context=None, target_language=None, default=None):
     if isinstance(msgid, (Msg, TrKey)):
         return msgid.s
+    if type(msgid) is str and msgid in CATALOG:
+        return CATALOG[msgid]
     if default is None:
         default = msgid
     if mapping and isinstance(default, str):
@@ -194,6 +203,8 @@ def _render_site(args):
     t = T(src, translate=translate)
     # at the opt-out sites only the bypass itself is claimed: str (and __html__) values
     kinds = ["html"] if site == "html_obj" else (["str"] if site in ("structure_kw", "structure_expr", "cdata", "textmode") else KINDS)
+    if site in CATKEY_SITES:
+        kinds = kinds + ["catkey"]
     traces = []
     viol = []
 
